@@ -43,6 +43,10 @@ def main(ctx):
     conv, count = os.path.join(bindir, "obiconvert"), os.path.join(bindir, "obicount")
     jobs, evs = [], []
     skipped = {}
+    intact = {}
+    for f in files:
+        if f["fault"] == "none" and f["codec"] == "gz":
+            intact[(f["fmt"], f["size"])] = f["file"]
     for f in files:
         kind = {"ueof": "trunc", "other": "corrupt", "open": "header", "none": "none"}[f["err"]]
         magic = {"gz": 2, "bz2": 3, "zst": 4, "xz": 6}[f["codec"]]
@@ -60,6 +64,12 @@ def main(ctx):
                  ("obicount-file", [count, f["file"]], None)]
         if f["codec"] == "gz":
             modes.append(("obiconvert-stdin", [conv, "--max-cpu", "2"], f["file"]))
+        # several input files: the faulted one next to an intact file of the same format (multi-file reader path)
+        if kind != "none" and (len(evs) % 5 == 0):
+            mate = intact.get((f["fmt"], f["size"]))
+            if mate:
+                modes.append(("obiconvert-2files-first", [conv, "--max-cpu", "2", f["file"], mate], None))
+                modes.append(("obiconvert-2files-last", [conv, "--max-cpu", "2", mate, f["file"]], None))
         for name, argv, stdin in modes:
             jobs.append({"argv": argv, "stdin": stdin})
             evs.append({"op": "file", "mode": name, "codec": f["codec"], "fault": f["fault"], "t": f["t"], "clen": f["clen"],
@@ -97,7 +107,7 @@ def main(ctx):
         e = events[r["l"] - 1]
         # the file readers decompress .gz with klauspost/pgzip: when that library itself takes the faulted bytes
         # for a complete stream, the acceptance is the third-party module's (known finding), not the repository's
-        where = "pgzip-accepts" if (e["mode"].endswith("-file") and e.get("pgz") == "accepts") else "inside"
+        where = "pgzip-accepts" if (e["mode"] != "obiconvert-stdin" and e.get("pgz") == "accepts") else "inside"
         cls = "%s/%s/%s/%s/%s" % (e["mode"], e["codec"], e["fault"], e["kind"], where)
         ctx.violation("C17.%s.%s" % (e["mode"], r["why"]), cls,
                       "%s on %s file (%s at %d of %d bytes; codec delivers %d of %d bytes then '%s'): rc=%d, %d of %d records written"
